@@ -141,8 +141,8 @@ func init() {
 			"configuration: every field of the YAML description of a builder / option rule or selector is read by its AsRewriteRule / AsSelector method (structural obligation over go/ssa, one per field)",
 			"disjunction_as_options: a def-use obligation over go/ssa requires every sibling option to be built from a deep copy taken in its own loop iteration (independence of the copy is C18's claim); the action itself is not under a functional contract",
 			"merge_into / compose: ast.Path.Append is under contract (a fresh array holding receiver ++ suffix, nothing pre-existing written) and a def-use obligation generated from the SSA of mergeBuilderInto requires every path of a copied assignment to be built by underPath.Append(old path) and nothing else; the loops of mergeBuilderInto (which options are copied, renamed, excluded) are not under contract",
-			"scope: rule contracts of the builder rules omit / rename, the option actions rename / rename_arguments / omit / duplicate / add_comments / array_to_append / map_to_index / unfold_boolean and the by-name selectors: each states what comes back for a selected builder/option (including what is kept: arguments, assignments, target paths, defaults) and that non-applicable inputs come back unchanged",
-			"NOT covered by this check: Rewriter.ApplyTo / applyBuilderRules (applyOptionRules is under an at-call obligation: a rule is applied only to options its selector selected), sequences of rules, and the remaining rules (promote_to_constructor, add_option, add_assignment, disjunction_as_options beyond the sibling-copy obligation; merge_into / compose only as far as the re-rooting of paths goes; struct_fields_as_arguments / _options only write frames)",
+			"scope: rule contracts of the builder rules omit / rename / properties / duplicate / initialize / add_factory / add_option / promote_options_to_constructor, the option actions rename / rename_arguments / omit / duplicate / add_comments / add_assignment / veneer_trail_as_comments / array_to_append / map_to_index / unfold_boolean, the conversion of configured options and assignments into IR (veneers.Option.AsIR, Assignment.AsIR and the value converters) and the by-name selectors: each states what comes back for a selected builder/option (including what is kept: arguments, assignments, target paths, defaults) and that non-applicable inputs come back unchanged",
+			"NOT covered by this check: Rewriter.ApplyTo / applyBuilderRules (applyOptionRules is under an at-call obligation: a rule is applied only to options its selector selected), sequences of rules, and the remaining rules (disjunction_as_options beyond the sibling-copy obligation; promote_options_to_constructor only its frame; merge_into / compose only as far as the re-rooting of paths goes; struct_fields_as_arguments / _options only write frames)",
 			"selectors are values of a `pure` function type: their answer is a function of the selector value and the argument values",
 			"appends may write into spare capacity of an existing backing array (`modifies spare-capacity`): assumed unobservable; panic-freedom of the same closures is C04's claim",
 		},
